@@ -403,8 +403,93 @@ class HRefOrder(common.Harness):
         return [self.check("C15:reference_pattern_independent_of_set_iteration_order", z3.BoolVal(a == b), self.witness)]
 
 
+class HHash(common.Harness):
+    """value hashes under hash randomisation.  CPython's hash of a non-empty str/bytes is a function of the
+    process's hash seed: here it is an uninterpreted function pyhash(seed, value) (tuples and frozensets of
+    such values likewise); hash of ints/None and of hash_sha256's result are seed independent.  The real
+    __hash__ of every kind of citation that hashes by value (and of Resource) is executed under two symbolic
+    seeds in the same path; the two results must be equal for all seeds."""
+
+    KINDS = ["full_case", "short_case", "law", "journal", "supra", "reference", "resource"]
+
+    def __init__(self, params):
+        super().__init__(params)
+        import eyecite.models as M
+        import eyecite.tokenizers as T
+        import eyecite.utils as U
+
+        self.M, self.T = M, T
+        self.interp.stubs[U.hash_sha256] = lambda d: absval.StructKey(dict(d))
+        self.interp.stubs[hash] = self.model_hash
+        self.H = z3.Function("pyhash", z3.IntSort(), z3.IntSort(), z3.IntSort())
+        self.keys = {}
+
+    def seed_dependent(self, x):
+        if isinstance(x, (str, bytes)):
+            return len(x) > 0
+        if symex.is_sym(x) and not isinstance(x, (SInt, symex.SBool)):
+            return True
+        if isinstance(x, (tuple, frozenset)):
+            return any(self.seed_dependent(y) for y in x)
+        return False
+
+    def model_hash(self, x):
+        if self.seed_dependent(x):
+            k = self.keys.setdefault(repr(x), len(self.keys))
+            return SInt(self.H(self.seed, z3.IntVal(k)))
+        return self.interp.hash_of(x)
+
+    def build(self, kind):
+        M, T = self.M, self.T
+        us = T.EDITIONS_LOOKUP["U.S."][0]
+        g = {"volume": "1", "reporter": "U.S.", "page": "1"}
+        if kind in ("full_case", "resource"):
+            c = M.FullCaseCitation(M.CitationToken("1 U.S. 1", 0, 8, groups=dict(g)), 0, exact_editions=(us,))
+            c.edition_guess = us
+            return M.Resource(citation=c) if kind == "resource" else c
+        if kind == "short_case":
+            c = M.ShortCaseCitation(M.CitationToken("1 U.S. at 1", 0, 11, groups=dict(g), short=True), 0, exact_editions=(us,))
+            c.edition_guess = us
+            return c
+        if kind == "law":
+            ed = T.EDITIONS_LOOKUP["Mass. Gen. Laws"][0]
+            return M.FullLawCitation(M.CitationToken("Mass. Gen. Laws ch. 1, § 2", 0, 26, groups={"reporter": "Mass. Gen. Laws", "chapter": "1", "section": "2"}), 0, exact_editions=(ed,))
+        if kind == "journal":
+            ed = T.EDITIONS_LOOKUP["Minn. L. Rev."][0]
+            return M.FullJournalCitation(M.CitationToken("1 Minn. L. Rev. 1", 0, 17, groups={"volume": "1", "reporter": "Minn. L. Rev.", "page": "1"}), 0, exact_editions=(ed,))
+        if kind == "supra":
+            return M.SupraCitation(M.SupraToken("supra", 0, 5), 0, metadata={"antecedent_guess": "Bar", "pin_cite": "at 5"})
+        return M.ReferenceCitation(M.CaseReferenceToken("Bar at 7", 0, 8), 0, metadata={"defendant": "Bar", "pin_cite": "7"})
+
+    def run(self):
+        k = self.KINDS[self.eng.choose([z3.Int("kind") == j for j in range(len(self.KINDS))])]
+        self.kind = k
+        obj = self.build(k)
+        out = []
+        for tag in ("seedA", "seedB"):
+            self.seed = z3.Int(tag)
+            out.append(self.interp.hash_of(obj))
+        return out
+
+    def witness(self, m):
+        return {"kind": self.kind, "seedA": mval(m, z3.Int("seedA")), "seedB": mval(m, z3.Int("seedB"))}
+
+    def describe(self, kind, out):
+        return {"kind": self.kind}
+
+    def judge(self, kind, out):
+        if kind == "exc":
+            return [self.check("C15:hash:no_exception:" + type(out).__name__, False, self.witness)]
+        a, b = out
+        if isinstance(a, absval.StructKey) or isinstance(b, absval.StructKey):
+            same = z3.BoolVal(bool(a == b))
+        else:
+            same = lift_int(a) == lift_int(b)
+        return [self.check("C15:value_hash_independent_of_the_hash_seed", same, self.witness)]
+
+
 def make(params):
-    return {"tok": HTok, "merge": HMerge, "ref": HRefOrder}[params["part"]](params)
+    return {"tok": HTok, "merge": HMerge, "ref": HRefOrder, "hash": HHash}[params["part"]](params)
 
 
 # ---------------------------------------------------------------- replay in fresh processes
@@ -433,6 +518,7 @@ def run_with_seed(seed, texts):
     return json.loads(r.stdout.strip().splitlines()[-1]), None
 
 
+HASH_TEXTS = ["Foo v. Bar, 1 U.S. 1 (1990). Bar at 7. Foo, supra, at 5. See 1 U.S. at 3.", "See 1 Minn. L. Rev. 1 (2020) and Mass. Gen. Laws ch. 1, § 2."]
 HISTORY_TEXTS = ["Roe, 410 U.S. at ___.", "Foo v. Bar, 1 U.S. ___ (2020). Id. at 5.", "See 1 Minn. L. Rev. ___ (2020).", "Foo v. Bar, 1 U.S. 1, 2 S. Ct. 3 (1999). Bar at 5."]
 
 
@@ -546,9 +632,9 @@ def merge_sweep():
 def check(rep):
     quick = rep.tier == "quick"
     K = 2 if quick else 3
-    rep.bounds.append(f"(a) 2 abstract extractors (unfiltered / case-sensitive / case-insensitive) each yielding one candidate token of symbolic kind (5 kinds) and offsets" + ("" if quick else ", and 3 extractors over 2 token kinds") + ", every iteration order of every set; (b) merge of two citation tokens whose edition tuples are drawn from a pool of 4 editions (nominative, two ordinary, one sharing a short_name with another reporter), every de-duplication order")
+    rep.bounds.append(f"(a) 2 abstract extractors (unfiltered / case-sensitive / case-insensitive) each yielding one candidate token of symbolic kind (5 kinds) and offsets" + ("" if quick else ", and 3 extractors over 2 token kinds") + ", every iteration order of every set; (c) __hash__ of each of 6 value-hashed citation kinds and of Resource under two symbolic str-hash seeds; (b) merge of two citation tokens whose edition tuples are drawn from a pool of 4 editions (nominative, two ordinary, one sharing a short_name with another reporter), every de-duplication order")
     rep.outside += ["thread schedules (no usable concurrency model of CPython here; the shared writes are the idempotent _compiled_regex and _db caches)", "cross-call history beyond the frame condition on the tokenizer object (tokenize leaves its attributes unchanged) and the call-sequence replay", "order of the candidate-edition tuples themselves (compared as sets)"]
-    rep.stubs += ["set(...): iteration order is an arbitrary permutation (this is the PYTHONHASHSEED variable)", "ahocorasick automata: report every registered word that occurs (occurrence fixed true)", "Tokenizer.append_text: its summary (see C12)", "hash_sha256: injective"]
+    rep.stubs += ["set(...): iteration order is an arbitrary permutation (this is the PYTHONHASHSEED variable)", "ahocorasick automata: report every registered word that occurs (occurrence fixed true)", "Tokenizer.append_text: its summary (see C12)", "hash_sha256: injective", "builtin hash() of a non-empty str/bytes (or a tuple/frozenset holding one): uninterpreted function pyhash(seed, value); of ints/None: seed independent"]
     findings = []
     agg = common.explore_split("vf.harness.c15", {"part": "tok", "K": 2}, depth=4)
     rep.merge_explore("tokenize_under_permuted_sets", agg)
@@ -571,6 +657,21 @@ def check(rep):
     findings += [("ref", f) for f in agg["findings"]]
     for k, v in agg["verdicts"].items():
         tot[k] = tot.get(k, 0) + v
+    agg = common.explore_split("vf.harness.c15", {"part": "hash"}, depth=1, procs=1)
+    rep.merge_explore("value_hashes_under_two_symbolic_hash_seeds", agg)
+    for k, v in agg["verdicts"].items():
+        tot[k] = tot.get(k, 0) + v
+    hash_cex = [f for f in agg["findings"] if f["verdict"] == "cex"]
+    for f in agg["findings"]:
+        if f["verdict"] != "cex":
+            rep.inconc(f"hash/{f['clause']}: solver verdict {f['verdict']}")
+    if hash_cex:
+        rep.replays += 1
+        hv, hd = seed_replay(HASH_TEXTS)
+        if hv == "differs":
+            rep.violation(f"hash() of a citation that hashes by value ({', '.join(sorted({f['witness']['kind'] for f in hash_cex}))}) depends on PYTHONHASHSEED: get_citations({hd['text']!r}) seed {hd['seed_a']} vs {hd['seed_b']}: {json.dumps(hd['a'])[:160]} vs {json.dumps(hd['b'])[:160]}", {"kind": "seeds", "texts": HASH_TEXTS})
+        else:
+            rep.inconc(f"hash/{hash_cex[0]['clause']}: the interpreted __hash__ of {hash_cex[0]['witness']['kind']} depends on the str-hash seed but the process replay on {HASH_TEXTS} says {hv}")
     rep.distinct = rep.evaluations
     groups_seen, risky = merge_sweep()
     rep.sections["live_db_merge_sweep"] = {"merge_groups": groups_seen, "order_sensitive_groups": risky[:5], "note": "exhaustive over the reporter strings of the installed database in the two minimal forms (data enumeration, not a solver result)"}
